@@ -61,6 +61,16 @@ def gen_cases(n, r, now):
             sans = [x for j, x in enumerate(norm) if j != drop] or [('dns', 'other.example.org')]
         else:
             sans = [('dns', 'unrelated%d.example.org' % i)]
+        if i % 40 == 7:
+            # a wildcard certificate to which a name under the wildcard has been added in the configuration: the name is a distinct
+            # identifier and the certificate does not have it
+            extra = r.sample([x for x in pool if x not in (('dns', '*.example.org'), ('dns', 'www.example.org'))], r.randint(0, 2))
+            ids = [('dns', '*.example.org')] + extra + [('dns', 'www.example.org')]
+            if i % 80 == 7:
+                ids.reverse()
+            norm = [(kind, norm_id(kind, v)) for kind, v in ids]
+            sans = [x for x in norm if x != ('dns', 'www.example.org')]
+            san_mode = 'wildcard-without-covered-name'
         covered = set(norm) <= set(sans)
         # notAfter
         life_kind = r.choice(['epoch', 'past-year', 'past-second', 'now', 'plus-second', 'around-delay', 'month', 'quarter', 'y67', 'y68', 'y69',
